@@ -109,6 +109,10 @@ class Choice:
         elif code is not None:
             code = None
         if text is not None and self.r.random() < 0.8:
+            # the human-readable text is free-form (RFC 5804 section 1.2): it may quote the script, so it may hold braces with a number
+            # in them, quotes, parentheses or status words — none of which is protocol syntax inside a string
+            if self.r.random() < 0.2:
+                text = text + self.r.choice([b" near ${1} {2}", b' {7}', b" (see {10+} )", b' "x" OK', b" {3} {4}", b"\\ NO (A) {1}"])
             out += b" " + self.string(text)
         else:
             text = None
